@@ -63,8 +63,12 @@ def _n_jw(tables, term):
     return sum(1 for nm, i in term if nm in tables[i][1])
 
 
+_ALIAS = {'A': 'C', 'Ad': 'Cd', 'X': 'C', 'Xd': 'Cd'}  # renamed / re-added fermionic operators (kind 'fermion_renamed')
+
+
 def _charge_ok(conserve, term):
     """does the term commute with the conserved charge of the site (else tenpy rejects it when building charged tensors)"""
+    term = [(_ALIAS.get(nm, nm), i) for nm, i in term]
     if conserve in (None, 'None') or conserve == [None, None]:
         return True
     if conserve == 'parity':  # parity of the number of genuinely fermionic operators ('JW' = (-1)^n is even)
@@ -179,14 +183,15 @@ def car_case(ctx, kind='fermion', conserve='N', L=3):
     from tenpy.networks.terms import TermList
     from tenpy.networks.mpo import MPOGraph
     D = site.dim**L
-    species = [('C', 'Cd')] if kind == 'fermion' else [('Cu', 'Cdu'), ('Cd', 'Cdd')]
+    species = {'fermion': [('C', 'Cd')], 'fermion_renamed': [('A', 'Ad'), ('X', 'Xd')]}.get(kind, [('Cu', 'Cdu'), ('Cd', 'Cdd')])
+    same_fermion = kind == 'fermion_renamed'  # A and X are two names of the same annihilator
     ann = [a for a, _ in species]
     cre = dict(species)
     for i, j in itertools.product(range(L), repeat=2):
         for a, b in itertools.product(ann, repeat=2):
             arr = np.empty(2, dtype=object if ctx.symbolic else complex)
             arr[0] = arr[1] = s
-            pairs = [(a, cre[b], 1. if (i == j and a == b) else 0., 'c c^dagger'), (a, b, 0., 'c c')]
+            pairs = [(a, cre[b], 1. if (i == j and (a == b or same_fermion)) else 0., 'c c^dagger'), (a, b, 0., 'c c')]
             for x, y, val, what in pairs:
                 if conserve == 'N' and what == 'c c':
                     continue  # pair annihilation changes the conserved particle number: such an MPO is rejected (DESIGN section 8)
@@ -377,10 +382,182 @@ def grouped_case(ctx, conserve='N', n_group=2, n_ops=2, names=('C', 'Cd', 'N'), 
             ctx.note('even_terms')
 
 
+# ---------------------------------------------------------------------------------------------
+# heterogeneous chains and site offsets (MPS._term_to_ops_list(term, autoJW, i_offset))
+_OPS_BY_KIND = {'fermion': ['C', 'Cd', 'N'], 'spin': ['Sz', 'Sp'], 'spinful': ['Cu', 'Cdd', 'Ntot']}
+
+
+def _hetero(ctx, chain, cplx_site=1, chi=2):
+    sites = [F.make_site(k, None) for k in chain]
+    tables = [F.own_ops(x) for x in sites]
+    L = len(sites)
+    psi = F.sym_mps(ctx, 'k', sites, [1] + [chi] * (L - 1) + [1], cplx=[int(i == cplx_site) for i in range(L)], forms='B')
+    return sites, tables, psi
+
+
+def _window_value(psi, sites, tables, term):
+    """<theta| own JW product of `term` |theta> on the window [min site, max site] of the term (non-canonical state allowed)"""
+    pos = [i for _, i in term]
+    i0, i1 = min(pos), max(pos)
+    th = None
+    for i in range(i0, i1 + 1):
+        t = psi.gamma_form(i, 1., 0.)
+        th = t if th is None else np.tensordot(th, t, axes=[[-1], [0]])
+    th = th * psi.S[i1 + 1]
+    n = i1 - i0 + 1
+    Ow = F.own_term_dense(sites[i0:i1 + 1], [(nm, i - i0) for nm, i in term], tables[i0:i1 + 1])
+    v = th.reshape(th.shape[0], -1, th.shape[-1])
+    want = 0.
+    for a in range(v.shape[0]):
+        for b in range(v.shape[2]):
+            want = want + np.dot(F.conj_obj(v[a, :, b]), np.dot(Ow, v[a, :, b]))
+    return want
+
+
+_APPLY_OPS = {'fermion': ['C', 'Cd'], 'spin': ['Sz', 'Sp'], 'spinful': ['Cu', 'Cdd']}
+
+
+def offset_apply_case(ctx, chain=('fermion', 'spinful', 'fermion', 'spinful'), n_ops=2, offsets=(1, -1, 2), which=0, of=1, chi=1, cplx_site=1):
+    """MPS.apply_local_term(term, i_offset) on a heterogeneous chain: the new state == (own JW product of the SHIFTED term) . state.
+    One (positions, names, offset) combination per engine path (symbolic selector), every combination is a path.
+    chi=1 (product state with symbolic amplitudes on every site): apply_local_term tests `norm(op.B) < 1e-12` per site, which is a
+    polynomial sum-of-squares query for the solver; with bond dimension 2 it takes minutes per term."""
+    sites, tables, psi = _hetero(ctx, chain, cplx_site=cplx_site, chi=chi)
+    L = len(sites)
+    combos = []
+    for pos in itertools.product(range(L), repeat=n_ops):
+        for nms in itertools.product(*[_APPLY_OPS[chain[i]] for i in pos]):
+            combos.append((pos, nms))
+    combos = [c for k, c in enumerate(combos) if k % of == which]
+    k = ctx.choice('combo', len(combos))
+    pos, nms = combos[k]
+    off = offsets[k % len(offsets)]
+    term_abs = list(zip(nms, pos))
+    term_rel = [(nm, i - off) for nm, i in term_abs]
+    label = f'apply_local_term({term_rel}, i_offset={off})'
+    njw = _n_jw(tables, term_abs)
+    if njw % 2:
+        # outside: an odd term needs the fermion parity of the bond left of it, which a chain without charges does not have
+        # (tenpy rejects it or, if the left-most site is a spin site with an empty charge_to_JW_parity, silently drops the string)
+        ctx.prove(True, 'odd term: outside the claim')
+        ctx.note('odd_skipped')
+        return
+    v = psi.dense()
+    p = psi.psi
+    try:
+        p.apply_local_term(term_rel, i_offset=off, canonicalize=False)
+    except ValueError as e:
+        if 'destroys state' in str(e):
+            ctx.prove(True, f'{label}: raises only where the operator annihilates the site tensor (documented check)')
+            ctx.note('destroys_state_path')
+        else:
+            ctx.fail(f'{label}: even term rejected', str(e)[:120])
+        return
+    want = np.dot(F.own_term_dense(sites, term_abs, tables), v.reshape(-1)).reshape(v.shape)
+    ctx.prove_eq(F.dense_of_tenpy_mps(p), want, f'{label}: new state == own JW product of the shifted term . state')
+    ctx.note('even_terms')
+
+
+def offset_corr_case(ctx, chain=('fermion', 'spinful', 'fermion', 'spinful'), side='right'):
+    """MPS.term_correlation_function_right / _left on a heterogeneous chain (they shift one term by a site offset):
+    every entry == <theta| term_L(i) term_R(j) |theta> on its window, own JW operators"""
+    sites, tables, psi = _hetero(ctx, chain)
+    L = len(sites)
+    p = psi.psi
+    fixed_at = 0 if side == 'right' else L - 1
+    for n in (1, 2):
+        pats = sorted(set(tuple(chain[j:j + n]) for j in range(L - n + 1)))
+        for pat in pats:
+            if side == 'right':
+                js = [j for j in range(1, L - n + 1) if tuple(chain[j:j + n]) == pat]
+            else:
+                js = [j for j in range(0, L - n) if tuple(chain[j:j + n]) == pat]
+            if not js:
+                continue
+            for fixed_op in _OPS_BY_KIND[chain[fixed_at]]:
+                for nms in itertools.product(*[_OPS_BY_KIND[kd] for kd in pat]):
+                    moving = [(nm, d) for d, nm in enumerate(nms)]
+                    label = f'{side}: fixed {fixed_op}_{fixed_at}, moving {moving} at {js}'
+                    njw = _n_jw(tables, [(fixed_op, fixed_at)] + [(nm, js[0] + d) for nm, d in moving])
+                    try:
+                        if side == 'right':
+                            res = p.term_correlation_function_right([(fixed_op, 0)], moving, i_L=0, j_R=list(js))
+                            order = sorted(js)
+                        else:
+                            res = p.term_correlation_function_left(moving, [(fixed_op, 0)], i_L=list(js), j_R=L - 1)
+                            order = sorted(js)[::-1]
+                    except ValueError as e:
+                        if njw % 2:
+                            ctx.prove(True, f'{label}: odd number of Jordan-Wigner operators rejected')
+                            ctx.note('odd_rejected')
+                        else:
+                            ctx.fail(f'{label}: even correlation rejected', str(e)[:120])
+                        continue
+                    if njw % 2:
+                        ctx.fail(f'{label}: odd correlation accepted')
+                        continue
+                    want = []
+                    for j in order:
+                        mv = [(nm, j + d) for nm, d in moving]
+                        full = ([(fixed_op, 0)] + mv) if side == 'right' else (mv + [(fixed_op, L - 1)])
+                        want.append(_window_value(psi, sites, tables, full))
+                    ctx.prove_eq(np.asarray(res).reshape(-1), np.array(want, dtype=object if ctx.symbolic else complex),
+                                 f'{label}: term_correlation_function_{side} == <theta| own JW product |theta>')
+                    ctx.note('even_terms')
+
+
+def grouped_table_case(ctx, subs=(('spin', 'Sz', False), ('fermion', 'N', None)), charges='independent'):
+    """GroupedSite of heterogeneous / unsorted sub-sites: state labels, operator table and need_JW flags against the own kron
+    construction (plain enumeration of concrete tables), and two-operator terms on a chain of 2 such groups with symbolic strength"""
+    from tenpy.networks.site import GroupedSite
+    fine = [F.make_site(k, c, sc) for k, c, sc in subs]
+    g = GroupedSite(fine, charges=charges)
+    gops, gferm = F.own_ops(g)
+    gops = {nm: mat for nm, mat in gops.items() if nm in g.opnames}
+    ctx.prove(len(gops) >= 3 * len(fine), 'own table covers the operators of the grouped site')
+    for nm, mat in gops.items():
+        if nm == 'Id':
+            continue
+        ctx.prove_eq(g.get_op(nm).to_ndarray(), mat, f'GroupedSite operator {nm} == own kron placed by the state labels')
+        ctx.prove((nm in g.need_JW_string) == (nm in gferm), f'GroupedSite need_JW_string flag of {nm}')
+    # every state label names the kron basis state it says: diagonal operators of the sub-sites read at the labelled index
+    for m, x in enumerate(fine):
+        sub_ops = F.own_ops(x)[0]
+        for dn in ('Sz', 'N'):
+            if dn not in sub_ops:
+                continue
+            gm = g.get_op(dn + g.labels[m]).to_ndarray()
+            for combo in itertools.product(*[sorted(y.state_labels.items(), key=lambda kv: kv[1]) for y in fine]):
+                idx = g.state_labels[' '.join(f'{nm}_{lb}' for (nm, _), lb in zip(combo, g.labels))]
+                ctx.prove_eq(gm[idx, idx], sub_ops[dn][x.state_labels[combo[m][0]], x.state_labels[combo[m][0]]],
+                             f'state label -> basis index: <{dn}{g.labels[m]}> at the labelled state')
+    s = _strength(ctx, True)
+    gsites = [g, g]
+    gtab = [(gops, gferm)] * 2
+    names = [nm for nm in gops if nm not in ('Id', 'JW') and not nm.startswith(('JW', 'dN', 'Sigma', 'Sx', 'Sy'))]
+    for pos in ((0, 1), (1, 0), (0, 0)):
+        for nms in itertools.product(names, repeat=2):
+            term = list(zip(nms, pos))
+            label = ' '.join(f'{n}_{i}' for n, i in term)
+            njw = _n_jw(gtab, term)
+            try:
+                got = _termlist_dense(gsites, term, s)
+            except ValueError as e:
+                if njw % 2 or 'charge' in str(e).lower():
+                    ctx.note('rejected')
+                    continue
+                ctx.fail(f'{label}: even grouped term rejected', str(e)[:120])
+                continue
+            if njw % 2:
+                continue
+            ctx.prove_eq(got, F.own_term_dense(gsites, term, gtab) * s, f'{label}: grouped term == strength * own JW product')
+            ctx.note('even_terms')
+
+
 def CASES(tier, seed):
     cases = []
     thorough = tier == 'thorough'
-    O = dict(max_paths=64, max_wall_s=1500 if thorough else 700, validate_paths=1, hard_timeout_s=1700 if thorough else 800, profile=False)
+    O = dict(max_paths=4000, max_wall_s=1500 if thorough else 700, validate_paths=1, hard_timeout_s=1700 if thorough else 800, profile=False)
 
     def add(fn, name, profile=False, **params):
         o = dict(O)
@@ -419,6 +596,32 @@ def CASES(tier, seed):
             which=w, of=4)
     add('grouped_case', 'grouped[2 fermion sites,N,2 operators]', profile=True, conserve='N', n_group=2, n_ops=2)
     add('grouped_case', 'grouped[2 fermion sites,parity,drop charges,2 operators]', conserve='parity', n_group=2, n_ops=2, charges='drop')
+    # renamed / re-added fermionic operators (Site.rename_op, add_op(need_JW=True)) through the same pipelines
+    for n, pos in enumerate(itertools.product(range(3), repeat=2)):
+        add('terms_case', f'terms2[renamed fermion ops,{cons[n % 3]},L=3,pos={list(pos)}]', kind='fermion_renamed', conserve=cons[n % 3],
+            L=3, positions=list(pos), names=['A', 'Ad', 'X', 'Xd', 'N'])
+    for n, pos in enumerate([(0, 2, 1, 0), (2, 0, 2, 1), (1, 1, 0, 2), (2, 1, 0, 0)]):
+        add('terms_case', f'terms4[renamed fermion ops,{cons[n % 2]},L=3,pos={list(pos)}]', kind='fermion_renamed', conserve=cons[n % 2],
+            L=3, positions=list(pos), names=['A', 'Xd'])
+    add('car_case', 'CAR[renamed fermion ops,parity,L=3]', kind='fermion_renamed', conserve='parity', L=3)
+    add('coupling_case', 'add_coupling[renamed fermion ops,N,L=4,dx=-2]', kind='fermion_renamed', conserve='N', L=4, dx=-2,
+        names=['A', 'Ad', 'Xd', 'N'])
+    # heterogeneous chains + site offsets
+    ch1 = ['fermion', 'spinful', 'fermion', 'spinful']
+    ch2 = ['fermion', 'spin', 'fermion', 'fermion']
+    add('offset_apply_case', 'apply_local_term[i_offset,chain f-sf-f-sf]', chain=ch1, cplx_site=2)
+    add('offset_apply_case', 'apply_local_term[i_offset,chain f-s-f-f]', chain=ch2)
+    for side in ('right', 'left'):
+        add('offset_corr_case', f'term_correlation_function_{side}[chain f-sf-f-sf]', chain=ch1, side=side)
+        add('offset_corr_case', f'term_correlation_function_{side}[chain f-s-f-f]', chain=ch2, side=side)
+    # GroupedSite of heterogeneous / unsorted sub-sites (tables: plain enumeration)
+    add('grouped_table_case', 'grouped_table[spin Sz unsorted + fermion N,independent]', subs=[['spin', 'Sz', False], ['fermion', 'N', None]],
+        charges='independent')
+    add('grouped_table_case', 'grouped_table[spin Sz unsorted x2,independent]', subs=[['spin', 'Sz', False], ['spin', 'Sz', False]],
+        charges='independent')
+    add('grouped_table_case', 'grouped_table[fermion parity + spin parity unsorted,drop]', subs=[['fermion', 'parity', None], ['spin', 'parity', False]],
+        charges='drop')
+    add('grouped_table_case', 'grouped_table[fermion N x2,same]', subs=[['fermion', 'N', None], ['fermion', 'N', None]], charges='same')
     if thorough:
         L = 4
         for pos in itertools.product(range(L), repeat=2):
